@@ -30,24 +30,72 @@ def expected_special(im: Image) -> dict[str, str]:
     return out
 
 
+def types_interp(t) -> "microeval.Interp":
+    """An evaluator holding the module level of types.py as far as the helper functions need it: every class as a
+    class object (enum classes with their members), the string constants, every module-level table that folds, and
+    every module-level function -- whatever the tables and helpers are called."""
+    cached = getattr(t, "_types_interp", None)
+    if cached is not None:
+        return cached
+    from .microeval import Interp, ClassRef, Closure, Record, Raised
+    tit = Interp(name=t.rel)
+    for name, c in t.classes.items():
+        if c.kind == "enum":
+            members = [Record(name, {"value": val, "name": mn}) for mn, val in c.members]
+
+            def ctor(v, _members=members, _name=name):
+                for m_ in _members:
+                    if m_.fields["value"] == v and type(m_.fields["value"]) is type(v):
+                        return m_
+                raise Raised("ValueError", (f"{v!r} is not a valid {_name}",))
+            tit.globals[name] = ClassRef(name, "enum", ["Enum"], call=ctor, iter=lambda _m=members: _m,
+                                         attrs={m_.fields["name"]: m_ for m_ in members})
+        else:
+            tit.globals[name] = ClassRef(name, c.kind, [])
+    tit.globals.update(t.str_consts)
+    for k, v in t.other_consts.items():
+        tit.globals.setdefault(k, v)
+    for name, node in t.tables.items():
+        try:
+            tit.globals[name] = tit.eval(node, {})
+        except (AnalysisError, Raised):
+            pass        # a table that does not fold is only a problem if a folded helper needs it (lookup fails then)
+    for fname, fdef in t.functions.items():
+        tit.globals[fname] = Closure(fdef, None, tit)
+    t._types_interp = tit
+    return tit
+
+
 def special_table(im: Image) -> list[str]:
-    return im.types.table_list_of_names("_SPECIAL_PROPERTIES")
+    """Qualified names Class.attr for which the package's own is_special_property folds to True (the table behind it
+    may have any name or shape)."""
+    t = im.types
+    tit = types_interp(t)
+    fn = tit.globals.get("is_special_property")
+    if not isinstance(fn, microeval.Closure):
+        raise AnalysisError(f"{t.rel}: is_special_property not found")
+    out = []
+    for c in t.attrs_classes():
+        ref = tit.globals[c.name]
+        for f in c.fields:
+            try:
+                r = fn(ref, f.name)
+            except microeval.Raised as e:
+                raise AnalysisError(f"{t.rel}: is_special_property({c.name}, {f.name!r}) raises {e.exc_name}")
+            if r is True:
+                out.append(f"{c.name}.{f.name}")
+            elif r is not False:
+                raise AnalysisError(f"{t.rel}: is_special_property does not return a bool")
+    return out
 
 
 def fold_omit(im: Image):
     """-> function (class name, attr name) -> bool computed by the package's own _omit /
     is_special_property, constant-folded by E5."""
     t, h = im.types, im.hooks
-    tit = microeval.Interp(name=t.rel)
-    for name in ("_SPECIAL_PROPERTIES",):
-        node = t.tables.get(name)
-        if node is None:
-            raise AnalysisError(f"{t.rel}: {name} not found")
-        tit.globals[name] = tit.eval(node, {})
-    fn = t.functions.get("is_special_property")
-    if fn is None:
+    tit = types_interp(t)
+    if "is_special_property" not in t.functions:
         raise AnalysisError(f"{t.rel}: is_special_property not found")
-    tit.globals["is_special_property"] = microeval.Closure(fn, None, tit)
     types_mod = microeval.ModuleRef("types", interp=tit)
     reg = h.functions.get("_register_custom_property_hooks")
     if reg is None:
@@ -142,14 +190,9 @@ def fold_factories(im) -> FactoryFold:
                           for f in c.fields] for c in t.attrs_classes()}
 
     def one_pass(order):
-        tit = Interp(name=t.rel)
-        node = t.tables.get("_SPECIAL_PROPERTIES")
-        fn = t.functions.get("is_special_property")
-        if node is None or fn is None:
-            raise AnalysisError(f"{t.rel}: _SPECIAL_PROPERTIES / is_special_property not found")
-        tit.globals["_SPECIAL_PROPERTIES"] = tit.eval(node, {})
-        for fname, fdef in t.functions.items():
-            tit.globals[fname] = Closure(fdef, None, tit)
+        tit = types_interp(t)
+        if "is_special_property" not in t.functions:
+            raise AnalysisError(f"{t.rel}: is_special_property not found")
         types_mod = ModuleRef("types", interp=tit)
         captured = {}
 
